@@ -61,6 +61,9 @@ inductive Req where
   /-- ACME: nonce consumption, account / order / authorization reads, serial index write,
       nonce for the reply -/
   | acmeNonceUse | acmeRead | acmeIndex | acmeNonceNew
+  /-- ACME `Order.UpdateStatus` inside `Finalize` for an order still pending in the database:
+      the authorization is written back (`UpdateAuthorization`), the order is written as ready -/
+  | acmeAuthzUpdate | acmeOrderReady
   deriving DecidableEq, Repr
 
 inductive Kind where
@@ -158,6 +161,10 @@ structure Env where
       authority runs on `db.SimpleDB` (`db.New(nil)`): tokens are remembered in memory, every
       store / revoke method returns `ErrNotImplemented`, nothing is an external call -/
   db : Bool := true
+  /-- the provisioner's webhook definitions are usable: the URL template parses and the
+      signing secret is base64 (`DoWithContext` returns an error before any attempt
+      otherwise) -/
+  hooksUsable : Bool := true
 
 inductive R where
   | next (s : St)
@@ -221,9 +228,11 @@ def execDB (e : Env) (s : St) : Kind → R
     let r := call e s .readData
     .next { r.2 with dataOk := r.1 == .ok }
   | .enrich =>
+    if e.hooksUsable = false then .abort s else
     let r := webhook e s .enrich
     if r.1 then .next r.2 else .abort r.2
   | .authorize =>
+    if e.hooksUsable = false then .abort s else
     let r := webhook e s .authorize
     if r.1 then .next r.2 else .abort r.2
   | .store =>
@@ -263,6 +272,7 @@ def execDB (e : Env) (s : St) : Kind → R
     | .timeout => .abort { r.2 with d := { r.2.d with orderValid := true } }
     | _ => .abort r.2
   | .challenge =>
+    if e.hooksUsable = false then .abort s else
     let r := attempt e s .challenge
     match r.1 with
     | .ok => .next { r.2 with allowed := r.2.allowed + 1 }
@@ -272,6 +282,7 @@ def execDB (e : Env) (s : St) : Kind → R
   | .arm => .next { s with armed := true }
   | .withData => .next { s with dataOk := true }
   | .notify =>
+    if e.hooksUsable = false then .next { s with muted := true } else
     if s.muted then .next s
     else
       let r := attempt e s .notify
@@ -307,6 +318,14 @@ structure Cfg where
   ch : Nat := 0
   n : Nat := 0
   crl : Bool := false
+  /-- ACME: number of identifiers (= authorizations) of the order -/
+  ids : Nat := 1
+  /-- ACME: the order is still `pending` in the database (the client did not poll it after the
+      last challenge was validated); `Finalize` makes it ready itself -/
+  pend : Bool := false
+  /-- SSH renew / rekey over mTLS: the client's X.509 identity certificate is renewed in the same
+      request (`renewIdentityCertificate` → `Authority.Renew`) -/
+  identity : Bool := false
 
 /-- `authorizeToken`: the token is recorded (`UseToken`) … -/
 def authorizeTokenSteps : List Kind := [.useToken]
@@ -376,6 +395,15 @@ def updateOrderSteps : List Kind := [.req .acmeRead, .acmeUpdateOrder]
 def finalizePost : List Kind := createCertificateSteps ++ updateOrderSteps
 def finalizeSteps (n : Nat) (c : Cfg) : List Kind := finalizePre n ++ signX509Steps c ++ finalizePost
 
+/-- `Order.UpdateStatus` on a pending order: for each authorization `GetAuthorization` (the
+    authorization and its challenge), `az.UpdateStatus` → `UpdateAuthorization` (read the stored
+    one, compare-and-swap); then `UpdateOrder` (read, compare-and-swap to `ready`). -/
+def authzUpdates : Nat → List Kind
+  | 0 => []
+  | n + 1 => [.req .acmeRead, .req .acmeRead, .req .acmeRead, .req .acmeAuthzUpdate] ++ authzUpdates n
+def updateStatusSteps (c : Cfg) : List Kind :=
+  if c.pend then authzUpdates c.ids ++ [.req .acmeRead, .req .acmeOrderReady] else []
+
 /-- The JWS middleware in front of `acme/api.FinalizeOrder` (`acme/api/middleware.go`):
     `addNonce` creates the reply nonce, `parseJWS`/`validateJWS` consume the request nonce,
     `lookupJWK` reads the account named by the key id, `verifyAndExtractJWSPayload` checks the
@@ -402,6 +430,9 @@ def validateChallengeSteps (c : Cfg) : List Kind :=
 def pkiOperationSteps (c : Cfg) : List Kind :=
   [.check] ++ validateChallengeSteps c ++ [.arm] ++ signCSRSteps c ++ List.replicate c.n .notify
 
+/-- `api.renewIdentityCertificate`: nothing without a TLS peer certificate, else `renewContext` -/
+def identityRenewSteps (c : Cfg) : List Kind := if c.identity then renewContextSteps else []
+
 def steps : Op → Cfg → List Kind
   | .sign, c => authorizeSteps ++ signX509Steps c
   | .renew, _ => renewContextSteps
@@ -409,10 +440,10 @@ def steps : Op → Cfg → List Kind
   | .revoke, c => authorizeSteps ++ revokeTokenSteps c
   | .revokeMTLS, c => revokeMTLSSteps c
   | .sshSign, c => authorizeSteps ++ signSSHSteps c
-  | .sshRenew, _ => authorizeSteps ++ renewSSHSteps
-  | .sshRekey, _ => authorizeSteps ++ rekeySSHSteps
+  | .sshRenew, c => authorizeSteps ++ renewSSHSteps ++ identityRenewSteps c
+  | .sshRekey, c => authorizeSteps ++ rekeySSHSteps ++ identityRenewSteps c
   | .sshRevoke, _ => authorizeSteps ++ revokeSSHSteps
-  | .acmeFinalize, c => finalizeHandlerPre ++ finalizeSteps 1 c
+  | .acmeFinalize, c => finalizeHandlerPre ++ updateStatusSteps c ++ finalizeSteps c.ids c
   | .scepEnroll, c => pkiOperationSteps c
   | .sshSignFull, c => authorizeSteps ++ signSSHSteps c ++ signSSHAddUserSteps ++ identitySteps c
 
@@ -440,6 +471,11 @@ def runOp (e : Env) (op : Op) (c : Cfg) (d : Durable) : St × Bool :=
   let r := run e (steps op c) (init op d)
   if r.2 = false ∧ r.1.armed = true then (notifyFailure e c r.1, false) else r
 
+/-- A restart of the authority keeps what is in the database and loses what is in memory:
+    with `db.SimpleDB` the set of used tokens is gone. -/
+def restart (db : Bool) (d : Durable) : Durable :=
+  if db then d else { d with tokenSpent := false }
+
 /-- what the client holds after the response -/
 inductive Client where
   | error | certificate | revoked
@@ -449,6 +485,38 @@ inductive Client where
     no `status: ok`); otherwise the certificate / the acknowledgement is sent. -/
 def client (op : Op) (r : St × Bool) : Client :=
   if r.2 then (if op.revokes then .revoked else .certificate) else .error
+
+/-! ### who signs, and who calls the signers (compared with the source on every run) -/
+
+/-- every function of package `authority` that asks the CAS or the SSH key for a signature on a
+    certificate, with the step segment that models it -/
+def signerTable (c : Cfg) : List (String × List Kind) :=
+  [("signX509", signX509Steps c), ("renewContext", renewContextSteps), ("signSSH", signSSHSteps c),
+   ("renewSSH", renewSSHSteps), ("rekeySSH", rekeySSHSteps), ("SignSSHAddUser", signSSHAddUserSteps)]
+
+/-- signs the CA's own server certificate at start-up and on rotation; never handed to a client of
+    the API, not stored -/
+def internalSigners : List String := ["GetTLSCertificate"]
+
+/-- server-side functions (api, acme, scep) that call an issuing entry point of the authority:
+    (caller, entry point, operation that models the request, segment that models the entry point) -/
+def callerTable (c : Cfg) : List (String × String × Op × List Kind) :=
+  [("Sign", "SignWithContext", .sign, signX509Steps c),
+   ("Renew", "RenewContext", .renew, renewContextSteps),
+   ("Rekey", "Rekey", .rekey, renewContextSteps),
+   ("SSHSign", "SignSSH", .sshSignFull, signSSHSteps c),
+   ("SSHSign", "SignSSHAddUser", .sshSignFull, signSSHAddUserSteps),
+   ("SSHSign", "SignWithContext", .sshSignFull, signX509Steps c),
+   ("SSHRenew", "RenewSSH", .sshRenew, renewSSHSteps),
+   ("SSHRekey", "RekeySSH", .sshRekey, rekeySSHSteps),
+   ("renewIdentityCertificate", "Renew", .sshRenew, renewContextSteps),
+   ("Finalize", "SignWithContext", .acmeFinalize, signX509Steps c),
+   ("SignCSR", "SignWithContext", .scepEnroll, signX509Steps c)]
+
+/-- SCEP message types for which `PKIOperation` validates the challenge, and those
+    `DecryptPKIEnvelope` treats as carrying a certificate request -/
+def challengedTypes : List String := ["PKCSReq", "RenewalReq", "UpdateReq"]
+def csrTypes : List String := ["PKCSReq", "RenewalReq", "UpdateReq"]
 
 /-! ### every certificate made is stored -/
 
@@ -499,6 +567,7 @@ def Kind.str : Kind → String
   | .req .casRevoke => "casRevoke" | .req .crlRead => "crlRead" | .req .crlList => "crlList"
   | .req .casCRL => "casCRL" | .req .crlStore => "crlStore" | .req .acmeNonceUse => "acmeNonceUse"
   | .req .acmeRead => "acmeRead" | .req .acmeIndex => "acmeIndex" | .req .acmeNonceNew => "acmeNonceNew"
+  | .req .acmeAuthzUpdate => "acmeAuthzUpdate" | .req .acmeOrderReady => "acmeOrderReady"
   | .acmeStoreCert => "acmeStoreCert" | .acmeUpdateOrder => "acmeUpdateOrder"
   | .challenge => "challenge" | .challengeDone => "challengeDone" | .arm => "arm" | .notify => "notify"
   | .withData => "withData"
